@@ -9,6 +9,7 @@ import (
 	"go/token"
 	"go/types"
 	"regexp"
+	"sort"
 	"strconv"
 	"strings"
 
@@ -108,6 +109,54 @@ func (fc *fnCtx) evalHole(text string, ev *evalCtx) Val {
 		panic(unsupported{fmt.Sprintf("hole {%s}: %v", text, err)})
 	}
 	return fc.evalExpr(e, ev, text)
+}
+
+// inductionVar: for "rangeindex" / "rangeindex@k": the k-th loop counter of the function in source order,
+// counting both compiler-generated range indices and integer locals that are incremented by one; returns
+// the local when that counter is such an induction variable (nil when it is a real range index or absent).
+func (fc *fnCtx) inductionVar(name string) *ssa.Alloc {
+	want := 1
+	if i := strings.Index(name, "__AT__"); i >= 0 {
+		want, _ = strconv.Atoi(name[i+6:])
+	}
+	var counters []*ssa.Alloc
+	isInd := map[*ssa.Alloc]bool{}
+	for _, b := range fc.fn.Blocks {
+		for _, ins := range b.Instrs {
+			a, ok := ins.(*ssa.Alloc)
+			if !ok {
+				continue
+			}
+			if a.Comment == "rangeindex" {
+				counters = append(counters, a)
+				continue
+			}
+			if bt, ok := a.Type().(*types.Pointer).Elem().Underlying().(*types.Basic); !ok || bt.Kind() != types.Int {
+				continue
+			}
+			for _, ref := range *a.Referrers() {
+				st, ok := ref.(*ssa.Store)
+				if !ok || st.Addr != a {
+					continue
+				}
+				if bo, ok := st.Val.(*ssa.BinOp); ok && bo.Op == token.ADD {
+					if ld, ok := bo.X.(*ssa.UnOp); ok && ld.Op == token.MUL && ld.X == a {
+						if c, ok := bo.Y.(*ssa.Const); ok && c.Value != nil && c.Int64() == 1 {
+							isInd[a] = true
+						}
+					}
+				}
+			}
+			if isInd[a] {
+				counters = append(counters, a)
+			}
+		}
+	}
+	sort.SliceStable(counters, func(i, j int) bool { return counters[i].Pos() < counters[j].Pos() })
+	if want < 1 || want > len(counters) || !isInd[counters[want-1]] {
+		return nil
+	}
+	return counters[want-1]
 }
 
 // hasLocalNamed: the function under contract has a local variable or captured variable of this name.
@@ -240,6 +289,14 @@ func (fc *fnCtx) evalExpr(e ast.Expr, ev *evalCtx, text string) Val {
 		}
 	local:
 		a := fc.localAlloc(name)
+		if a == nil && strings.HasPrefix(name, "rangeindex") {
+			// the loop was written "for i := 0; i < n; i++" instead of "for ... range": the contract's
+			// {rangeindex} (index of the last completed iteration) is the induction variable minus one
+			if iv := fc.inductionVar(name); iv != nil {
+				v := fc.load(ev.cur, &Addr{kind: aCell, cell: iv, typ: iv.Type().(*types.Pointer).Elem()})
+				return Val{T: fmt.Sprintf("(- %s 1)", v.T), S: "Int", Ty: types.Typ[types.Int]}
+			}
+		}
 		if a == nil {
 			// free variable of a closure
 			for _, fv := range fc.fn.FreeVars {
